@@ -107,11 +107,19 @@ def build(chk):
         pairs = [("per", "per"), ("dirichlet", "dirichlet")]
         if kind in ("euler1d", "nozzle"):
             pairs += [(a_, b_) for a_ in INLETS for b_ in OUTLETS]
+        quick_pairs = [("per", "per"), ("dirichlet", "dirichlet"), ("insub", "outsub"), ("insub_cbc", "outsub_nrcbc"),
+                       ("insup", "outsup")]
         for label, cls, lim in num_configs(chk):
             for bl, br in pairs:
+                # quick tier: every reconstruction with representative boundary pairs, every boundary pair with two
+                # reconstructions (they interact only through the boundary face states); thorough: full product
+                if chk.tier == "quick" and cls not in ("extrapol2", "extrapol1") and (bl, br) not in quick_pairs:
+                    continue
                 if kind == "nozzle" and (bl, br) not in (("per", "per"), ("dirichlet", "dirichlet"), ("insub", "outsub")):
                     continue        # nozzle shares every function with euler1d except the sources (checked here at rest)
                 for ncase in ("n>=3", 1, 2):
+                    if chk.tier == "quick" and ncase != "n>=3" and cls not in ("extrapol2", "muscl") :
+                        continue
                     cfg = "fvm1d/%s/%s/%s-%s/n=%s" % (kind, label, bl, br, ncase)
                     chk.configs.append(cfg)
                     rp = {"fn": "uniform_clause", "args": {"kind": kind, "num": cls, "limiter": lim, "bcL": bl, "bcR": br}}
@@ -174,7 +182,8 @@ def build(chk):
                             cells = [("i=%d" % k, k) for k in range(n)]
                         for nm, i in cells:
                             for f in (i, T.add(i, 1)):
-                                lemma("face-sees-equal-states/%s/f=%s" % (nm, "i" if f is i else "i+1"), fc.instance_consistency(f))
+                                fl = "i" if f is i else "i+1"
+                                lemma("face-sees-(W,W)/%s/f=%s" % (nm, fl), fc.instance_consistency(f, at_state=W))
                             for k, cn in enumerate(comp_names(kind)):
                                 prove("residual-zero/%s[%s]" % (nm, cn), T.treal(res[k].at(i)) == 0, replay=rp)
                         canary("canary", T.treal(res[0].at(cells[0][1])) == 1)
